@@ -35,6 +35,7 @@ type FuncContract struct {
 	Stable      []Expr              // fields that opaque callees are assumed never to write (set once at construction)
 	StableSrc   []string
 	AllocUnbounded bool
+	AssumeUnreachable map[string]bool // assume_unreachable f: calls to the no-return function f in this body are assumed unreachable (listed)
 	AssumePre      map[string]bool // assume_pre f, g: preconditions of these callees are assumed at their calls (reported as assumptions)
 	AllocBound     []Clause // alloc_bound <expr over $n>: what every make([]T, $n) of this function must satisfy (replaces the fixed bound)
 	OwnPanicsNever bool             // the function's own run-time panics (index, nil, slice, division, explicit panic) are excluded; callees are not judged
@@ -111,7 +112,7 @@ func newContracts() *Contracts {
 	return &Contracts{Funcs: map[string]*FuncContract{}, SpecFuncs: map[string]*SpecFunc{}, Lemmas: map[string]*Lemma{}, Ghosts: map[string]*GhostVar{}, FuncFields: map[string]string{}, OpaqueTys: map[string]bool{}, NonConsensusMapLoops: map[string]string{}}
 }
 
-var directiveKW = []string{"func", "invoke", "spec", "pred", "lemma", "axiom", "ghost", "requires", "ensures", "modifies", "loop", "panics_never", "may_panic", "inline", "trusted", "uses", "noreturn", "pure", "fresh_result", "funcfield", "sink", "opaque", "maploop", "at", "opaque_calls", "panic_only_when", "stable", "own_panics_never", "alloc_unbounded", "alloc_bound", "assume_pre", "ghost_set", "assume_ensures", "safety_only"}
+var directiveKW = []string{"func", "invoke", "spec", "pred", "lemma", "axiom", "ghost", "requires", "ensures", "modifies", "loop", "panics_never", "may_panic", "inline", "trusted", "uses", "noreturn", "pure", "fresh_result", "funcfield", "sink", "opaque", "maploop", "at", "opaque_calls", "panic_only_when", "stable", "own_panics_never", "alloc_unbounded", "alloc_bound", "assume_pre", "ghost_set", "assume_ensures", "safety_only", "assume_unreachable"}
 
 type directive struct {
 	kw    string
@@ -449,6 +450,15 @@ func (c *Contracts) loadFile(path, pkgPath string, isLib bool) error {
 					return fail(err)
 				}
 				curF.AllocBound = append(curF.AllocBound, Clause{"", e, d.rest, d.where})
+			case "assume_unreachable":
+				if curF.AssumeUnreachable == nil {
+					curF.AssumeUnreachable = map[string]bool{}
+				}
+				for _, n := range strings.Split(d.rest, ",") {
+					if n = strings.TrimSpace(n); n != "" {
+						curF.AssumeUnreachable[n] = true
+					}
+				}
 			case "assume_pre":
 				if curF.AssumePre == nil {
 					curF.AssumePre = map[string]bool{}
